@@ -638,6 +638,18 @@ class Device:
 
 
 # ---------------------------------------------------------------------- instrumented sets and attributes
+def _cb_label(x):
+    """small stable label of a callback object for the trace"""
+    lab = getattr(x, "_cbid", None)
+    if lab is not None:
+        return lab
+    f = getattr(x, "__func__", None)
+    owner = getattr(x, "__self__", None)
+    if f is not None and owner is not None:
+        return getattr(owner, "_cbid", None) or (type(owner).__name__ + "." + f.__name__)
+    return getattr(x, "__name__", type(x).__name__)
+
+
 class SimSet(set):
     """a set whose mutation and iteration are scheduling points; iteration follows CPython's
     'changed size during iteration' rule; `list(s)` / `set(s)` / `s.copy()` are atomic (as under the GIL)."""
@@ -649,21 +661,30 @@ class SimSet(set):
         s = self._sim
         if s is not None and s.cur is not None:
             s.yield_point()
-            s.ev("SetAdd", set=self._label)
+            s.ev("SetAdd", set=self._label, item=_cb_label(x), present=set.__contains__(self, x))
         set.add(self, x)
 
     def discard(self, x):
         s = self._sim
         if s is not None and s.cur is not None:
             s.yield_point()
-            s.ev("SetDiscard", set=self._label)
+            s.ev("SetDiscard", set=self._label, item=_cb_label(x), present=set.__contains__(self, x))
         set.discard(self, x)
+
+    def __contains__(self, x):
+        s = self._sim
+        r = set.__contains__(self, x)
+        if s is not None and s.cur is not None and not s.aborting:
+            s.yield_point()
+            r = set.__contains__(self, x)
+            s.ev("SetContains", set=self._label, item=_cb_label(x), result=r)
+        return r
 
     def remove(self, x):
         s = self._sim
         if s is not None and s.cur is not None:
             s.yield_point()
-            s.ev("SetRemove", set=self._label, present=x in self)
+            s.ev("SetRemove", set=self._label, item=_cb_label(x), present=set.__contains__(self, x))
         set.remove(self, x)
 
     def clear(self):
@@ -681,8 +702,9 @@ class SimSet(set):
         op = dis.opname[fr.f_code.co_code[fr.f_lasti]]
         if op.startswith("CALL") or op in ("LIST_EXTEND", "SET_UPDATE", "UNPACK_SEQUENCE", "CONTAINS_OP"):
             s.yield_point()
-            s.ev("SetSnapshot", set=self._label, n=len(self))
-            return iter(list(set.__iter__(self)))
+            items = list(set.__iter__(self))
+            s.ev("SetSnapshot", set=self._label, n=len(items), items=[_cb_label(x) for x in items])
+            return iter(items)
         return self._gen()
 
     def _gen(self):
@@ -702,7 +724,7 @@ class SimSet(set):
                 return
             x = items[i]
             i += 1
-            if x not in self:
+            if not set.__contains__(self, x):
                 continue
             s.ev("IterNext", set=self._label)
             yield x
@@ -869,7 +891,10 @@ class Patched:
             if name == "_update_callbacks" and not isinstance(value, SimSet):
                 ss = SimSet(value)
                 ss._sim = sim
-                ss._label = "update:" + str(getattr(self_, "id", "?"))
+                ss._label = "update:" + f"{getattr(self_, 'id', '?')}"
+                if "_update_callbacks" in self_.__dict__ and sim.cur is not None and not sim.aborting:
+                    sim.yield_point()
+                    sim.ev("SetClear", set=ss._label)  # close(): the set is replaced by an empty one
                 value = ss
             if name == "_initialized" and sim.cur is not None and not sim.aborting:
                 sim.yield_point()
@@ -888,6 +913,14 @@ class Patched:
 
         self._set(SB, "__setattr__", sb_setattr)
         self._set(SB, "__getattribute__", sb_getattribute)
+        pmr = SB._protocol_message_received
+
+        def pmr2(self_, status, subunit, function_name, value_str):
+            if sim.cur is not None and not sim.aborting:
+                sim.ev("CbEnter", set="message", item=_cb_label(getattr(self_, "_protocol_message_received")))
+            return pmr(self_, status, subunit, function_name, value_str)
+
+        self._set(SB, "_protocol_message_received", pmr2)
 
         RT = serial.threaded.ReaderThread
 
